@@ -1029,6 +1029,85 @@ func c03Wrappers(c *Ctx, p *Prog, m *Model) {
 				}
 			}
 		}
+		// or: the option is a method value of a small struct that bundles the arguments (o.wr, o.lvl)
+		if !ok {
+			for _, b := range fn.Blocks {
+				ret, isRet := b.Instrs[len(b.Instrs)-1].(*ssa.Return)
+				if !isRet || len(ret.Results) != 1 {
+					continue
+				}
+				mc, isMC := strip(ret.Results[0]).(*ssa.MakeClosure)
+				if !isMC || len(mc.Bindings) != 1 {
+					continue
+				}
+				w := mc.Fn.(*ssa.Function)
+				if !strings.Contains(w.Synthetic, "bound method wrapper") {
+					continue
+				}
+				var M *ssa.Function
+				for _, cs := range callsIn(w) {
+					if cal := calleeOf(cs); cal != nil {
+						M = cal
+					}
+				}
+				if M == nil || len(M.Params) != 2 {
+					continue
+				}
+				// the fields of the bound struct literal
+				fieldVal := map[int]ssa.Value{}
+				if u, isU := mc.Bindings[0].(*ssa.UnOp); isU {
+					if al, isAl := u.X.(*ssa.Alloc); isAl {
+						for _, ref := range *al.Referrers() {
+							if fa, isFA := ref.(*ssa.FieldAddr); isFA {
+								for _, r2 := range *fa.Referrers() {
+									if st, isSt := r2.(*ssa.Store); isSt && st.Addr == ssa.Value(fa) {
+										fieldVal[fa.Field] = st.Val
+									}
+								}
+							}
+						}
+					}
+				}
+				for _, cs := range callsIn(M) {
+					if calleeOf(cs) != want || cs.Common().Args[0] != ssa.Value(M.Params[1]) {
+						continue
+					}
+					good := true
+					for i := range fn.Params {
+						if i+1 >= len(cs.Common().Args) {
+							good = false
+							continue
+						}
+						// o.f: a field of the receiver value (directly, or through the spilled copy of a value receiver)
+						fidx := -1
+						switch x := strip(cs.Common().Args[i+1]).(type) {
+						case *ssa.Field:
+							if x.X == ssa.Value(M.Params[0]) {
+								fidx = x.Field
+							}
+						case *ssa.UnOp:
+							if fa, isFA := x.X.(*ssa.FieldAddr); isFA && x.Op == token.MUL {
+								if fa.X == ssa.Value(M.Params[0]) {
+									fidx = fa.Field
+								} else if al, isAl := fa.X.(*ssa.Alloc); isAl {
+									for _, ref := range *al.Referrers() {
+										if st, isSt := ref.(*ssa.Store); isSt && st.Addr == ssa.Value(al) && st.Val == ssa.Value(M.Params[0]) {
+											fidx = fa.Field
+										}
+									}
+								}
+							}
+						}
+						if fidx < 0 || fieldVal[fidx] != ssa.Value(fn.Params[i]) {
+							good = false
+						}
+					}
+					if good {
+						ok = true
+					}
+				}
+			}
+		}
 		r.Check(ok, "R03.4", key, p.FuncPos(fn), "applies Entry."+optWriterOps[n]+" with its own arguments", "the option "+n+" does not apply Entry."+optWriterOps[n]+" with its own arguments to the logger under construction")
 	}
 }
